@@ -167,6 +167,7 @@ Proof.
   simpl. intro H. b2p. unfold run_SSetVar.
   replace (2 <? order) with false by (symmetry; apply Z.ltb_ge; lia).
   apply ok_seq; [apply ok_when, ok_mark|].
+  apply ok_seq; [apply ok_when, ok_mark|].
   destruct (0 <? order) eqn:E; simpl; [|exact ok_ret].
   apply orb_true_iff in H0. destruct H0 as [H0|H0]; b2p; [lia|].
   replace (inb i n) with true by (symmetry; apply inb_true; assumption). exact ok_mark.
